@@ -124,8 +124,9 @@ class PE(Metric):
 
         if self.unit in LENGTH_UNITS and new_unit in LENGTH_UNITS:
             # Convert first to meters, then to the final length unit.
-            self.error *= (METER_SCALE_FACTORS[self.unit] /
-                           METER_SCALE_FACTORS[new_unit])
+            # Not in-place: the array may be shared with an earlier result.
+            self.error = self.error * (METER_SCALE_FACTORS[self.unit] /
+                                       METER_SCALE_FACTORS[new_unit])
         elif self.unit is Unit.radians and new_unit is Unit.degrees:
             self.error = np.rad2deg(self.error)
         elif self.unit is Unit.degrees and new_unit is Unit.radians:
